@@ -147,6 +147,13 @@ func (e *Env) ident(name string) Val {
 	case "alloc":
 		return Val{T: e.cur.alloc, S: SInt}
 	}
+	if g, ok := eng.ghosts[name]; ok && e.fx != nil && e.fx.fn != nil && !eng.recordedHas(e.fx.fn, name) {
+		// a ghost-state name that was not a variable of the function when its contract was written denotes the
+		// ghost, even if an edit in /repo has since introduced a variable of that name
+		if _, isVar := e.vars[name]; !isVar {
+			return Val{T: eng.ghostGet(e.cur, name), S: g}
+		}
+	}
 	if v, ok := e.lookupVar(name); ok {
 		return v
 	}
